@@ -131,7 +131,7 @@ def moveDep (x y : Nat) (done : List Nat) :
 /-- `var_at_level(level)` -/
 def varAtLevel (i : Int) : M String := do
   let m ← M.get
-  if i < 0 then M.throw .value
+  if i < 0 then M.throw .value else
   M.ofOption .value (m.tbl.l2v[i.toNat]?)
 
 /-- `level_of_var(var)` -/
@@ -209,12 +209,13 @@ def swap (xa ya : VarOrLevel) (given : Bool) : M (Nat × Nat) := do
   let x ← resolveVL xa
   let y ← resolveVL ya
   let m ← M.get
-  if !(0 ≤ x && x < m.nvars) then M.throw .value
-  if !(0 ≤ y && y < m.nvars) then M.throw .value
-  let (x, y) := if x > y then (y, x) else (x, y)
-  if x ≥ y then M.throw .value
-  if y - x ≠ 1 then M.throw .value
-  swapBody x.toNat y.toNat
+  if !(0 ≤ x && x < m.nvars) then M.throw .value else
+  if !(0 ≤ y && y < m.nvars) then M.throw .value else
+  let lo := if x > y then y else x
+  let hi := if x > y then x else y
+  if lo ≥ hi then M.throw .value else
+  if hi - lo ≠ 1 then M.throw .value else
+  swapBody lo.toNat hi.toNat
 
 /-- dict update keeping insertion order -/
 def assocSet (l : List (Nat × Nat)) (k v : Nat) : List (Nat × Nat) :=
@@ -248,7 +249,7 @@ def argMin : List (Nat × Nat) → Option Nat
 /-- `_reorder_var(bdd, var, levels)` -/
 def reorderVar (var : String) : M Nat := do
   let m ← M.get
-  if !m.tbl.vars.contains var then M.throw .value
+  if !m.tbl.vars.contains var then M.throw .value else
   let len0 := m.len
   M.assert (0 < m.nvars)
   let n := m.nvars - 1
@@ -289,7 +290,7 @@ def applySifting : M Unit := do
   let m ← M.get
   let n := m.len
   let names ← takeSiftOrder
-  if names.isEmpty then M.throw .other   -- `m` unbound in the Python code
+  if names.isEmpty then M.throw .other else  -- `m` unbound in the Python code
   siftVars names
   let m ← M.get
   M.assert (m.len ≤ n)
@@ -330,7 +331,7 @@ def sortOuter (order : List (String × Int)) (n : Nat) : Nat → M Unit
 /-- `_sort_to_order(bdd, order)` -/
 def sortToOrder (order : List (String × Int)) : M Unit := do
   let m ← M.get
-  if m.nvars ≠ order.length then M.throw .value
+  if m.nvars ≠ order.length then M.throw .value else
   let n := order.length
   sortOuter order n n
 
